@@ -25,7 +25,7 @@
 //! With the unpaced in-memory data the engine-side fills are a race by construction of the unchanged tree (see `known()`):
 //! there the always-on clauses are the event clauses, the decisions (orders issued), "fills seen are a PREFIX of the fills of
 //! (dataset, k)" and "summary = function of the own engine's history"; the strict comparison runs only with VX_C20_KNOWN=1.
-use crate::{eng::Rng, report};
+use crate::{rng::Rng, report};
 use barter::{
     backtest::{
         BacktestArgsConstant, BacktestArgsDynamic, backtest,
